@@ -257,6 +257,7 @@ type PipeSim struct {
 	biz    []bizEntry
 	cps    []cpWrite
 	viol   *Violation
+	viols  []*Violation
 	prop   string
 }
 
@@ -270,10 +271,19 @@ func NewPipeSim(r *Run, prop string, cfg PipeCfg, st *Stream) *PipeSim {
 	return ps
 }
 
+// setViolation records a violation; the run's verdict is the first one whose rule belongs to the
+// property being checked (rules of sibling properties are logged but do not decide this check).
 func (ps *PipeSim) setViolation(rule, sig, format string, a ...any) {
-	if ps.viol == nil {
-		ps.viol = &Violation{Property: ps.prop, Rule: rule, Sig: sig, Msg: fmt.Sprintf(format, a...)}
-		ps.r.Logf("VIOLATION %s: %s", rule, ps.viol.Msg)
+	v := &Violation{Property: rule[:3], Rule: rule, Sig: sig, Msg: fmt.Sprintf(format, a...)}
+	for _, o := range ps.viols {
+		if o.Rule == rule {
+			return
+		}
+	}
+	ps.viols = append(ps.viols, v)
+	ps.r.Logf("VIOLATION %s: %s", rule, v.Msg)
+	if ps.viol == nil && strings.HasPrefix(rule, ps.prop+".") {
+		ps.viol = v
 	}
 }
 
@@ -478,6 +488,10 @@ func (ps *PipeSim) healthyActions(allowIdle bool) []pipeAction {
 		}
 		acts = append(acts, pipeAction{"idle", w, func() {
 			d := idleDurations[ps.r.Sched().Biased("idledur", maxIdle, 1, 3)]
+			// a long idle period with millisecond tickers costs one wake-up per tick: cap the tick count
+			if lim := 1500 * ps.minTicker(); d > lim {
+				d = lim
+			}
 			ps.r.Logf("idle %v", d)
 			ps.r.Advance(d)
 		}})
@@ -491,6 +505,17 @@ func (ps *PipeSim) pick(acts []pipeAction) pipeAction {
 		w[i] = a.weight
 	}
 	return acts[ps.r.Sched().Weighted("act", w)]
+}
+
+func (ps *PipeSim) minTicker() time.Duration {
+	m := ps.cfg.BatchTicker
+	if ps.cfg.Keepalive < m {
+		m = ps.cfg.Keepalive
+	}
+	if !ps.cfg.Txn && ps.cfg.CpTicker < m {
+		m = ps.cfg.CpTicker
+	}
+	return m
 }
 
 func (ps *PipeSim) maxTicker() time.Duration {
@@ -507,8 +532,10 @@ func (ps *PipeSim) maxTicker() time.Duration {
 	return m
 }
 
-// drain lets a healthy system finish: execute everything pending, advance past the tickers, repeat.
-func (ps *PipeSim) drain(rounds int, check func()) {
+// drain lets a healthy system finish: execute everything pending, advance past the batch ticker, repeat
+// until done() or the round budget is used up (the budget is the bounded-liveness part of the oracles).
+func (ps *PipeSim) drain(rounds int, check func(), done func() bool) {
+	step := ps.cfg.BatchTicker + time.Millisecond
 	for i := 0; i < rounds; i++ {
 		for guard := 0; guard < 100000; guard++ {
 			ps.r.Settle()
@@ -523,7 +550,17 @@ func (ps *PipeSim) drain(rounds int, check func()) {
 		if check != nil {
 			check()
 		}
-		ps.r.Advance(ps.maxTicker() + time.Millisecond)
+		if done != nil && done() {
+			return
+		}
+		if i == rounds/2 {
+			// second half: also let the slower tickers (keep-alive, checkpoint) fire
+			step = ps.maxTicker() + time.Millisecond
+			if lim := 3000 * ps.minTicker(); step > lim {
+				step = lim
+			}
+		}
+		ps.r.Advance(step)
 	}
 }
 
@@ -534,6 +571,13 @@ func (ps *PipeSim) shutdown() {
 		return
 	}
 	in.cancel()
+	// the input side goes away together with the context (as the syncer does on stop); without the
+	// reader ending, the sender loop may spin on its cancelled context and never block.
+	in.mu.Lock()
+	if in.reader != nil {
+		in.reader.pipe.CloseWith(nil)
+	}
+	in.mu.Unlock()
 	for i := 0; i < 2000 && in.getPhase() != 2; i++ {
 		ps.r.Settle()
 		in.mu.Lock()
